@@ -172,6 +172,14 @@ func TestVerif_C15(t *testing.T) {
 		if cfg.PreviewFrames == 45 {
 			nf = rng.Range(50, 140)
 		}
+		if idx%300 == 150 {
+			// Boson-sized frames and warm scenes: sums over the interior exceed 2^31
+			cfg.W, cfg.H = 320, 256
+			cfg.Edge = rng.PickInt(0, 1, 2)
+			level = rng.PickInt(20000, 27000, 30000, 45000, 60000)
+			cfg.TMin, cfg.TMax = uint16(rng.PickInt(0, 2000, 28000)), uint16(rng.PickInt(0, 31000, 64000))
+			nf = cfg.PreviewFrames + rng.Range(3, 8) // the threshold follows the background once the preview frames are over
+		}
 		stream := c15Stream(rng, cfg, nf, level)
 		badAt := -1
 		c.Case(idx, func() interface{} { return detStreamDesc(cfg, stream, badAt)() }, func() {
@@ -223,7 +231,7 @@ func TestVerif_C15(t *testing.T) {
 					}
 					prevAffected = false
 					// envelope, border replication, re-seed
-					sum := 0
+					sum := int64(0) // 64 bits also in the 32-bit build: a Boson frame's sum exceeds 2^31
 					changed := false
 					for y := 0; y < cfg.H; y++ {
 						for x := 0; x < cfg.W; x++ {
@@ -242,7 +250,7 @@ func TestVerif_C15(t *testing.T) {
 								if bg != prevBg[y][x] {
 									changed = true
 								}
-								sum += int(bg)
+								sum += int64(bg)
 							} else {
 								ny, nx := y, x
 								if ny < cfg.Edge {
@@ -270,7 +278,7 @@ func TestVerif_C15(t *testing.T) {
 						changed = true
 					}
 					needSeed = false
-					mean := sum / cfg.interiorN()
+					mean := int(sum / int64(cfg.interiorN()))
 					want := c15Clamp(mean, cfg)
 					got := int(d.tempThresh)
 					class := fmt.Sprintf("tmin-set=%v tmax-set=%v mean-vs-range=%s preview-frames-zero=%v", cfg.TMin != 0, cfg.TMax != 0, c15Where(mean, cfg), cfg.PreviewFrames == 0)
@@ -290,13 +298,13 @@ func TestVerif_C15(t *testing.T) {
 				}
 				if aff && int(d.tempThresh) != prevThresh {
 					// recomputation during an FFC frame must still be the clamped mean of the (frozen) background
-					sum := 0
+					sum := int64(0) // 64 bits also in the 32-bit build: a Boson frame's sum exceeds 2^31
 					for y := cfg.Edge; y < cfg.H-cfg.Edge; y++ {
 						for x := cfg.Edge; x < cfg.W-cfg.Edge; x++ {
-							sum += int(d.background.Pix[y][x])
+							sum += int64(d.background.Pix[y][x])
 						}
 					}
-					if want := c15Clamp(sum/cfg.interiorN(), cfg); absInt(int(d.tempThresh)-want) > 1 {
+					if want := c15Clamp(int(sum/int64(cfg.interiorN())), cfg); absInt(int(d.tempThresh)-want) > 1 {
 						badAt = i
 						c.Violation("threshold-recomputed-wrongly", "during FFC", fmt.Sprintf("frame %d (FFC): threshold moved %d -> %d, clamped mean %d", i, prevThresh, d.tempThresh, want))
 						return
@@ -327,6 +335,9 @@ func TestVerif_C15(t *testing.T) {
 				h.Int(int(d.tempThresh))
 			}
 			c.Count("threshold_recomputations", int64(recomputes))
+			if cfg.W >= 320 {
+				c.Count("boson_sized_streams", 1)
+			}
 			c.Count("reseeds", int64(reseeds))
 			c.Seen("classes", fmt.Sprintf("tmin=%v tmax=%v level=%s pf0=%v", cfg.TMin != 0, cfg.TMax != 0, c15Where(level, cfg), cfg.PreviewFrames == 0))
 			if recomputes > 0 {
